@@ -216,3 +216,76 @@ func zzTry(pBound, bodyBase, bodyN int, handlersMayFail bool, endLabel string) {
 	nd.Assert((len(outer.Errors()) > 0) == handlerFailed, "C16/outer-scope-failed-iff-handler-failed")
 	nd.Reach(endLabel)
 }
+
+// ZZVerifC16TwoTries: two try blocks (names t and u) run one after the
+// other (the second when the first is finished) in the same surrounding scope, each with a symbolic body outcome and
+// the same symbolic subset of (non-failing) handlers: both blocks are
+// accepted, every handler runs once PER BLOCK exactly as for a single block
+// (the blocks do not collide on task names), and the surrounding scope is
+// not failed.
+func ZZVerifC16TwoTries() {
+	nd.Schedule(nd.Param("TP", 0))
+	nd.Races()
+	log := &zzLog{}
+	var r pipservices.Runner
+	boxes := &zzBoxes{self: &zzSelf{log: log, runner: func() pipservices.Runner { return r }}}
+	nsUnit := namespaces.NewUnit()
+	tUnit := tasks.NewUnit(tasks.UnitDeps{NamespacesUnit: nsUnit})
+	r = runner.NewRunner(runner.Deps{SandboxesManager: boxes, TasksUnit: tUnit, SharedMutex: mutex.NewSharedMutex()})
+	dp := dependency.NewProvider("dependency")
+	nd.Assume(dp.Set("PipRunner", pipservices.Runner(r)) == nil)
+	nd.Assume(dp.Set("PipNamespacesUnit", pipservices.NamespacesUnit(nsUnit)) == nil)
+	nd.Assume(dp.Set("PipTasksUnit", pipservices.TasksUnit(tUnit)) == nil)
+	a := zzApp{dp: dp}
+	args := datascope.New(map[interface{}]interface{}{})
+	sP, fP, yP := nd.Bool("success-present"), nd.Bool("fail-present"), nd.Bool("finally-present")
+	if sP {
+		args.SetValue("success", "success:ok")
+	}
+	if fP {
+		args.SetValue("fail", "fail:ok")
+	}
+	if yP {
+		args.SetValue("finally", "finally:ok")
+	}
+	outer := scope.New(scope.Params{Name: "outer", Injector: datascope.NewInjector("command", args)})
+	cwd, _ := memfs.NewFilespace()
+	buf := bufferio.NewBuffer()
+	ctx := gio.NewIOContext(outer, gio.NewIO(gio.IOParams{In: gio.NewInput(strings.NewReader("")), Out: bufferio.NewBufferOutput(buf), Err: bufferio.NewBufferOutput(buf), CWD: cwd}))
+	wantS, wantF, wantY := 0, 0, 0
+	for _, name := range []string{"t", "u"} {
+		fails := nd.Bool("body-fails")
+		args.SetValue("name", name)
+		if fails {
+			args.SetValue("body", "body:fail")
+		} else {
+			args.SetValue("body", "body:ok")
+		}
+		nd.Assert(Try(a, ctx) == nil, "C16/twotries-accepted")
+		// the second block starts when the first one is completely finished
+		outer.Wait()
+		if mgr, merr := tUnit.FromScope(outer); merr == nil {
+			mgr.Wait()
+		}
+		if sP && !fails {
+			wantS++
+		}
+		if fP && fails {
+			wantF++
+		}
+		if yP {
+			wantY++
+		}
+	}
+	outer.Wait()
+	if mgr, merr := tUnit.FromScope(outer); merr == nil {
+		mgr.Wait()
+	}
+	nd.Quiesce()
+	nd.Assert(log.count("begin:body") == 2, "C16/twotries-both-bodies-run")
+	nd.Assert(log.count("begin:success") == wantS, "C16/twotries-success-handlers")
+	nd.Assert(log.count("begin:fail") == wantF, "C16/twotries-fail-handlers")
+	nd.Assert(log.count("begin:finally") == wantY, "C16/twotries-finally-handlers")
+	nd.Assert(len(outer.Errors()) == 0, "C16/twotries-outer-scope-not-failed")
+	nd.Reach("C16/twotries-end")
+}
